@@ -37,6 +37,13 @@ def gen_cases(rng, tier, info):
         cases.append(Case("tname-%d" % n, name_case("T" + "a" * (n - 1)), ("tname", n)))
     for n in (1, 31, 32, 33, 63, 64, 65):
         cases.append(Case("cname-%d" % n, name_case("T", "c" + "b" * (n - 1)), ("cname", n)))
+    # the same in a package WITHOUT a _Validation table (a foreign file): only the container's 31 packed units
+    # (table marker + two characters per unit: 60 characters) and the 64-character _Tables.Name column limit the name
+    import msienc
+    clsid, entries, _ = msienc.encode_db(rng, 0, 65001, {"Seed": ([mk("K", "i16", pk=True)], [[1]])}, [(2, 30, "t")], {}, validation=False)
+    opn = msienc.enc_open_raw(clsid, entries)
+    for n in (1, 33, 58, 59, 60, 61, 62, 63, 64, 65):
+        cases.append(Case("tname-nv-%d" % n, [opn] + name_case("T" + "a" * (n - 1))[1:], ("tname-nv", n)))
     T = X.enc_str("T")
     U = X.enc_str("U")
     # rows: incremental, across reopen, after deletions; one batch
@@ -76,6 +83,31 @@ def oracle(ctx):
         kind = c.tags[0]
         if any(o in ("abort", "timeout") for o in outs):
             report("panic", "the driver aborted or timed out", outs.index([o for o in outs if o in ("abort", "timeout")][0]))
+            continue
+        if kind in ("tname-nv", "tname-nv-odd"):
+            n = c.tags[1]
+            # packed length computed here, independently: marker + one unit per pair of base-64 characters, one per other BMP character
+            name = "T" + "a" * (n - 1) if kind == "tname-nv" else "T" + "a" * (n - 2) + "\u00e9"
+            units, i = 1, 0
+            b64 = lambda ch: ch.isascii() and (ch.isalnum() or ch in "._")
+            while i < len(name):
+                if b64(name[i]) and i + 1 < len(name) and b64(name[i + 1]):
+                    i += 2
+                else:
+                    i += 1
+                units += 1
+            want_ok = units <= 31 and n <= 64
+            for i, o in enumerate(outs):
+                if o in ("panic", "abort") or o.startswith("(panic"):
+                    report("panic", "a %d-character table name (%d packed units) in a package without _Validation: %s panicked" % (n, units, c.cmds[i][:40]), i)
+                    break
+            else:
+                if (outs[1] == "(ok ())") != want_ok:
+                    report("limit", "create_table with a %d-character name (%d packed units, container limit 31) returned %s" % (n, units, outs[1]), 1)
+                elif want_ok and (outs[3] != "(ok ())" or outs[5] != "(ok ())" or outs[4] != outs[7]):
+                    report("reopen", "a table whose name is within the limits did not survive insert and reopen: %r" % [o[:40] for o in outs[1:]], len(outs) - 1)
+                elif not want_ok and outs[2] != outs[6]:
+                    report("limit", "a refused create_table left a trace: table list %s then %s" % (outs[2][:80], outs[6][:80]), 6)
             continue
         if kind in ("cols", "tname", "cname"):
             n = c.tags[1]
